@@ -121,16 +121,19 @@ fn c07_backface_antisymmetric() {
 /// depth_sort orders triangles by summed z: FrontToBack ascending, BackToFront
 /// descending; the result is a permutation (3 triangles, symbolic small-integer depths).
 #[kani::proof]
-#[kani::unwind(8)]
+#[kani::unwind(12)]
 fn c06_depth_sort_orders() {
     // (inputs drawn as one i8 array: with three separate i32 draws Kani 0.68 failed to emit a playback test here)
-    let zz: [i8; 3] = kani::any();
+    // zz[0..3]: depths; zz[3..9]: per-triangle x, y positions, which must not influence the order
+    // (w = 1 throughout, so that ordering by z, by z/w or by view depth are not told apart)
+    let zz: [i8; 9] = kani::any();
     kani::assume(zz.iter().all(|v| *v >= -8 && *v <= 8));
     let z: [i32; 3] = [zz[0] as i32, zz[1] as i32, zz[2] as i32];
     kani::assume(z[0] != z[1] && z[1] != z[2] && z[0] != z[2]);
     let mk = |i: usize| {
-        let zz = z[i] as f32;
-        let v = |dz: f32| ClipVert::new(vertex(ProjVec4::new([0.0, 0.0, zz + dz, 1.0]), i as u32));
+        let d = z[i] as f32;
+        let (x, y) = (zz[3 + 2 * i] as f32, zz[4 + 2 * i] as f32);
+        let v = |dz: f32| ClipVert::new(vertex(ProjVec4::new([x + dz, y - dz, d + dz, 1.0]), i as u32));
         Tri([v(-0.25), v(0.0), v(0.25)])
     };
     let mut tris = [mk(0), mk(1), mk(2)];
